@@ -36,7 +36,7 @@ BOUND = {k: v + "; plus: " + "list names with a dot next to their stem; a user-w
 
 LISTS = ["c", "c1", "d"]
 VARIANTS = ["plain", "filter", "rand", "randseed", "randseedref", "multi", "rank", "or_other", "shared", "search",
-            "multi_or_other", "unused"]
+            "multi_or_other", "unused", "fromrepeat", "fromrepeat-filter"]
 
 
 def gen_lists(tier):
@@ -186,6 +186,12 @@ def build_lists(case):
         sel["appearance"] = "search('f')"
     elif v == "unused":
         qs = [qs[0]]
+    elif v in ("fromrepeat", "fromrepeat-filter"):
+        # the select's items are the answers given to a question of a repeat
+        sel["type"] = "select_one ${rq}"
+        if v.endswith("filter"):
+            sel["choice_filter"] = "${rq} != 'a'"
+        qs = [{"type": "begin repeat", "name": "rp", "label": "RP"}, {"type": "text", "name": "rq", "label": "RQ"}, {"type": "end repeat"}, *qs]
     if case["sizes"][1]:
         qs.append({"type": f"select_one {lists_of(case)[1]}", "name": "t", "label": "T"})
     place = case["place"]
@@ -293,7 +299,16 @@ def check_lists(case, wb, out, viol):
         if val is None or val.get("ref") != "name" or lab is None or lab.get("ref") != wl:
             viol.append((f"itemset-value-label-ref:{who}:{v}", f"{None if val is None else val.get('ref')} / {None if lab is None else lab.get('ref')}"))
 
-    if v == "search":
+    if v.startswith("fromrepeat"):
+        its = s_el.findall(O.X + "itemset")
+        pred = "./rq != ''" if v == "fromrepeat" else "./rq != 'a'"
+        ok = len(its) == 1 and norm_ws(its[0].get("nodeset") or "").replace("[ ", "[").replace(" ]", "]") == f"{base}/rp[{pred}]"
+        if ok:
+            val, lab = its[0].find(O.X + "value"), its[0].find(O.X + "label")
+            ok = val is not None and lab is not None and val.get("ref") == "rq" and lab.get("ref") == "rq"
+        if not ok:
+            viol.append((f"itemset-from-repeat:{v}", f"{[dict(i.attrib) for i in its]}"))
+    elif v == "search":
         items = s_el.findall(O.X + "item")
         exp = [c for c in choices if c["list_name"] == "c"]
         got = [(it.find(O.X + "value").text) for it in items]
